@@ -412,3 +412,14 @@ def c15_psd_ar(ctx, case):
     _psd_formula_check(ctx, p, x, nfft, fs, "%s(order=%d)" % (name, order))
     ctx.check(p.ar is not None and len(p.ar) == order, "%s exposes %r AR coefficients for order %d"
               % (name, None if p.ar is None else len(p.ar), order))
+
+
+# ---- number-type invariance (integer samples of a narrow dtype) -------------------
+from vlib import dtypecheck as _dt   # noqa: E402
+
+
+@sub("C15.dtype", strategy=_dt.int_case(sorted(_dt.TABLES["C15"])), quick=300, thorough=6000,
+     doc="the same integer-valued samples stored as int16/int8/uint8/uint16/int32/int64 or as float64 give the same result "
+         "(products of two narrow integers do not fit their dtype): " + ", ".join(sorted(_dt.TABLES["C15"])))
+def c15_dtype(ctx, case):
+    _dt.body(ctx, case, _dt.TABLES["C15"])
